@@ -86,11 +86,51 @@ def plainProg (s : String) : Bool :=
 def hostsProg (s : String) : Bool :=
   s.toList.all fun c => c == 'P' || c == 'c' || c == ',' || c == ';' || c == '-' || (digit? c).isSome
 
+/-- `requests` lines: one client call = a group of pool operations -/
+def parseReqKeys (nk : Nat) (cs : List Char) : Option (List Nat) :=
+  if cs == ['-'] then some [] else
+  if cs.isEmpty || cs.length > 3 then none else
+  cs.mapM fun c => (digit? c).bind fun k => if k < nk then some k else none
+
+def parseReqOp (nk : Nat) (s : String) : Option (Char × List Op) :=
+  match s.toList with
+  | ['c'] => some ('c', [.closeAll])
+  | 'H' :: ks => if ks == ['-'] then none else (parseReqKeys nk ks).map fun l => ('H', handlerLoadOps l)
+  | 'Q' :: ks => (parseReqKeys nk ks).map fun l => ('Q', requestOps l)
+  | _ => none
+
+def parseReqProg (nk : Nat) (s : String) : Option (List (List Op)) :=
+  if s == "-" then some [] else
+  ((s.splitOn ",").mapM (parseReqOp nk)).bind fun ops =>
+    let kinds := ops.map (·.1)
+    -- a handler is loaded first and only once; `c` is last and not first
+    if ops.length ≤ 8 && kinds.head? == some 'H' && !(kinds.drop 1).contains 'H' && !(kinds.dropLast.contains 'c')
+    then some (ops.map (·.2)) else none
+
+def parseReqNk (s : String) : Option Nat :=
+  match s.toList with
+  | [c] => (digit? c).bind fun n => if 1 ≤ n ∧ n ≤ 3 then some n else none
+  | _ => none
+
 def handle : List String → String
   | ["stress", seed, nt, iters, nk, mode] =>
     -- un-forced run: nothing to compare but the well-formedness of the line
     if numIn seed 0 999999999 && numIn nt 2 8 && numIn iters 1 5000 && numIn nk 1 4 && (mode == "a" || mode == "b")
     then "stress-ok" else "bad-op"
+  | ["requests", nk, progs, sched] =>
+    -- the reverse proxy's per-handler and per-request clients of the hosts pool through the real Handler
+    -- (Provision, ServeHTTP with a dynamic upstream source, Cleanup), whole calls: `H<keys>` load a handler with
+    -- these static upstreams, `Q<keys>` one request whose dynamic source returns these addresses, `c` unload
+    match parseReqNk nk with
+    | none => "bad-op"
+    | some nk =>
+      match (progs.splitOn ";").mapM (parseReqProg nk) with
+      | none => "bad-op"
+      | some ps =>
+        if ps.length < 1 || ps.length > 6 then "bad-op" else
+        match parseSched ps.length sched with
+        | none => "bad-op"
+        | some sc => runCaseGroups nk ps sc
   | ["listeners", nk, progs, sched] =>
     -- the unix listener glue (listen_unix.go) through the public API, whole calls: `A<k>` NetworkAddress.Listen on
     -- address k succeeds, `F<k>` the bind is refused, `c` the config closes all its listeners (last operation)
